@@ -6,316 +6,15 @@ package main
 // stays parked and is released later, while other requests are being served.
 
 import (
-	"context"
-	"errors"
 	"net/http"
-	"runtime"
-	"strconv"
-	"sync/atomic"
 	"time"
 
 	"github.com/zeromicro/go-zero/rest/handler"
 )
 
-type SeqReqIn struct {
-	H0     [][]any `json:"h0"`
-	Script [][]any `json:"script"`
-}
-
-type SeqCase struct {
-	ID    int        `json:"id"`
-	Kind  string     `json:"kind"`
-	DurNs int64      `json:"dur_ns"`
-	Reqs  []SeqReqIn `json:"reqs"`
-	Order [][]any    `json:"order"` // ["start", i] | ["H", i] | ["D", i]
-	// Procs > 0: run the case with GOMAXPROCS(Procs).  With one P, per-P caches
-	// (sync.Pool) hand an object released by one request to the very next one.
-	Procs int `json:"procs"`
-}
-
-type SeqReqOut struct {
-	SOut    string `json:"sout"`
-	PKind   string `json:"pkind"`
-	PVal    int64  `json:"pval"`
-	Status  int    `json:"status"`
-	Snap    []Hdr  `json:"snap"`
-	Live    []Hdr  `json:"live"`
-	Body    []int  `json:"body"`
-	Extra   int    `json:"extra"`
-	Late    int    `json:"late"`
-	Foreign int    `json:"foreign"`
-}
-
-type SeqOut struct {
-	ID     int         `json:"id"`
-	Sched  [][]any     `json:"sched"` // [i, "H"|"Dc"|"St"|"Sd"|"Sp"]
-	HObs   [][]any     `json:"hobs"`  // [i, obs...]
-	Reqs   []SeqReqOut `json:"reqs"`
-	RetAtD int         `json:"ret_at_d"`
-	// Stuck >= 0: a handler action (or the handler's start) of that request did not
-	// return within 5 s; the run was cut there and the request counts as not completed
-	Stuck int    `json:"stuck"`
-	Err   string `json:"err,omitempty"`
-}
-
-type seqReq struct {
-	in       SeqReqIn
-	gate     chan hcmd
-	acks     chan hack
-	rw       *recw
-	sret     atomic.Bool
-	sRet     chan struct{}
-	sPanic   any
-	hStarted chan struct{}
-	cancel   context.CancelFunc
-	parent   context.Context
-	started  bool
-	hEnded   bool
-	sSeen    bool
-}
-
-const seqHeader = "X-Verif-Req"
-
-func runSeq(c SeqCase) (out SeqOut) {
-	out = SeqOut{ID: c.ID, RetAtD: -1, Stuck: -1, Sched: [][]any{}, HObs: [][]any{}}
-	if c.Procs > 0 {
-		defer runtime.GOMAXPROCS(runtime.GOMAXPROCS(c.Procs))
-	}
-	reqs := make([]*seqReq, len(c.Reqs))
-	for i, in := range c.Reqs {
-		q := &seqReq{in: in, gate: make(chan hcmd), acks: make(chan hack, len(in.Script)+4),
-			sRet: make(chan struct{}), hStarted: make(chan struct{})}
-		q.parent, q.cancel = context.WithCancel(context.Background())
-		defer q.cancel()
-		q.rw = &recw{hdr: http.Header{}, sret: &q.sret}
-		for _, kv := range in.H0 {
-			for _, v := range kv[1].([]any) {
-				q.rw.hdr.Add(hname(num(kv[0])), hval(num(v)))
-			}
-		}
-		reqs[i] = q
-	}
-
-	work := http.HandlerFunc(func(w http.ResponseWriter, r *http.Request) {
-		i, err := strconv.Atoi(r.Header.Get(seqHeader))
-		if err != nil || i < 0 || i >= len(reqs) {
-			return
-		}
-		q := reqs[i]
-		close(q.hStarted)
-		defer func() {
-			if p := recover(); p != nil {
-				k, v := classifyPanic(p)
-				q.acks <- hack{obs: []any{"panic", k, v}, ended: true}
-				panic(p)
-			}
-		}()
-		for _, a := range q.in.Script {
-			<-q.gate
-			switch a[0].(string) {
-			case "set":
-				w.Header().Set(hname(num(a[1])), hval(num(a[2])))
-				q.acks <- hack{obs: []any{"none"}}
-			case "add":
-				w.Header().Add(hname(num(a[1])), hval(num(a[2])))
-				q.acks <- hack{obs: []any{"none"}}
-			case "del":
-				w.Header().Del(hname(num(a[1])))
-				q.acks <- hack{obs: []any{"none"}}
-			case "wh":
-				w.WriteHeader(int(num(a[1])))
-				q.acks <- hack{obs: []any{"none"}}
-			case "w":
-				bs := a[1].([]any)
-				p := make([]byte, len(bs))
-				for j, b := range bs {
-					p[j] = byte(num(b))
-				}
-				n, err := w.Write(p)
-				switch {
-				case err == nil:
-					q.acks <- hack{obs: []any{"wok", n}}
-				case errors.Is(err, http.ErrHandlerTimeout):
-					q.acks <- hack{obs: []any{"wto"}, wto: true}
-				default:
-					q.acks <- hack{obs: []any{"werr"}}
-				}
-			case "chk":
-				select {
-				case <-r.Context().Done():
-					q.acks <- hack{obs: []any{"ctx", true}, ctxd: true}
-					goto ret
-				default:
-					q.acks <- hack{obs: []any{"ctx", false}}
-				}
-			case "panic":
-				panic(pv(num(a[1])))
-			}
-		}
-	ret:
-		<-q.gate
-		q.acks <- hack{obs: []any{"none"}, ended: true}
-	})
+func runSeq(c SeqCase) SeqOut {
 	// ONE middleware instance for all requests
-	h := handler.TimeoutHandler(time.Duration(c.DurNs))(work)
-
-	emit := func(i int, e string) { out.Sched = append(out.Sched, []any{i, e}) }
-	returned := func(q *seqReq, wait time.Duration) bool {
-		if wait == 0 {
-			select {
-			case <-q.sRet:
-				return true
-			default:
-				return false
-			}
-		}
-		select {
-		case <-q.sRet:
-			return true
-		case <-time.After(wait):
-			return false
-		}
-	}
-	emitS := func(i int, q *seqReq) {
-		q.sSeen = true
-		switch {
-		case q.sPanic != nil:
-			emit(i, "Sp")
-		case !q.hEnded:
-			emit(i, "St")
-		default:
-			q.rw.mu.Lock()
-			st := q.rw.code
-			q.rw.mu.Unlock()
-			if st == 499 {
-				emit(i, "St")
-			} else {
-				emit(i, "Sd")
-			}
-		}
-	}
-	start := func(i int, q *seqReq) bool {
-		req, _ := http.NewRequestWithContext(q.parent, http.MethodGet, "http://localhost/x", http.NoBody)
-		req.Header.Set(seqHeader, strconv.Itoa(i))
-		sStarted := make(chan struct{})
-		go func() {
-			defer func() {
-				q.sPanic = recover()
-				q.sret.Store(true)
-				close(q.sRet)
-			}()
-			q.rw.sgid = gid()
-			close(sStarted)
-			h.ServeHTTP(q.rw, req)
-		}()
-		<-sStarted
-		q.started = true
-		select {
-		case <-q.hStarted:
-			return true
-		case <-time.After(5 * time.Second):
-			return false
-		}
-	}
-	stepH := func(i int, q *seqReq) bool {
-		select {
-		case q.gate <- hcmd{}:
-		case <-time.After(5 * time.Second):
-			return false
-		}
-		var a hack
-		select {
-		case a = <-q.acks:
-		case <-time.After(5 * time.Second):
-			return false
-		}
-		if a.wto && !q.sSeen {
-			if !returned(q, waitS) {
-				return false
-			}
-			emitS(i, q)
-		}
-		emit(i, "H")
-		out.HObs = append(out.HObs, append([]any{i}, a.obs...))
-		q.hEnded = a.ended
-		if !q.sSeen {
-			w := time.Duration(0)
-			if q.hEnded {
-				w = waitS
-			}
-			if returned(q, w) {
-				emitS(i, q)
-			}
-		}
-		return true
-	}
-
-loop:
-	for _, ev := range c.Order {
-		i := int(num(ev[1]))
-		q := reqs[i]
-		switch ev[0].(string) {
-		case "start":
-			if !q.started && !start(i, q) {
-				out.Stuck = i
-				break loop
-			}
-		case "H":
-			if q.started && !q.hEnded && !stepH(i, q) {
-				out.Stuck = i
-				break loop
-			}
-		case "D":
-			q.cancel()
-			emit(i, "Dc")
-			if q.started && !q.sSeen {
-				if returned(q, waitS) {
-					if !q.hEnded {
-						out.RetAtD = 1
-					}
-					emitS(i, q)
-				} else {
-					out.RetAtD = 0
-				}
-			}
-		}
-	}
-	// let every handler run to its end
-	for i, q := range reqs {
-		for out.Stuck < 0 && q.started && !q.hEnded {
-			if !stepH(i, q) {
-				out.Stuck = i
-			}
-		}
-		if out.Stuck < 0 && q.started && !q.sSeen && returned(q, waitS) {
-			emitS(i, q)
-		}
-	}
-	for _, q := range reqs {
-		o := SeqReqOut{Body: []int{}}
-		switch {
-		case !q.sret.Load():
-			o.SOut = "wait"
-		case q.sPanic != nil:
-			o.SOut = "panic"
-			o.PKind, o.PVal = classifyPanic(q.sPanic)
-		default:
-			o.SOut = "ret"
-		}
-		q.rw.mu.Lock()
-		if q.rw.wrote {
-			o.Status = q.rw.code
-		}
-		var e1, e2 int
-		o.Snap, e1 = hdrOut(q.rw.snap)
-		o.Live, e2 = hdrOut(q.rw.hdr)
-		o.Extra = e1 + e2
-		for _, b := range q.rw.body {
-			o.Body = append(o.Body, int(b))
-		}
-		o.Late, o.Foreign = q.rw.late, q.rw.foreign
-		q.rw.mu.Unlock()
-		out.Reqs = append(out.Reqs, o)
-	}
-	return out
+	return runSeqCore(c, func(work http.HandlerFunc) (http.Handler, func(int) string, error) {
+		return handler.TimeoutHandler(time.Duration(c.DurNs))(work), func(int) string { return "/x" }, nil
+	})
 }
